@@ -335,6 +335,40 @@ static void shared_op_case(MakeOp make, int n, int nev, int ncv, Args args)
     sym::witness("end");
 }
 
+// two shift-and-invert solvers sharing one operator object: the second constructor installs the shift again (the wrapper
+// re-factorizes); results of both must equal those of a solver with its own fresh operator, and the operator must still solve
+// the shifted system afterwards.  The operator instances need Bunch-Kaufman interchanges / LU row swaps.
+template <typename Solver, typename Op, bool Gen>
+static void shared_shift_op_case(const RMat& A, int n, int nev, int ncv, double sigma, Args args)
+{
+    RVec v0 = start_vector("generic", n), v1 = start_vector("ones", n);
+    Result fresh;
+    RVec w = start_vector("generic", n), y0(n), y1(n);
+    {
+        Op op(A);
+        Solver e(op, nev, ncv, Real(sigma));
+        op.perform_op(w.data(), y0.data());
+        e.init(v0.data());
+        long nc = e.compute(args.rule, args.maxit, Real(args.tol));
+        fresh = collect<Gen>(e, nc);
+    }
+    Op op(A);
+    Solver a(op, nev, ncv, Real(sigma));
+    a.init(v0.data());
+    Solver b(op, nev, ncv, Real(sigma));  // second solver on the same operator object: set_shift runs again
+    b.init(v1.data());
+    b.compute(args.rule, 2, Real(1e-4));
+    long nc = a.compute(args.rule, args.maxit, Real(args.tol));
+    Result ra = collect<Gen>(a, nc);
+    compare("shift-and-invert solver sharing its operator with a second solver", fresh, ra);
+    op.perform_op(w.data(), y1.data());
+    bool same = true;
+    for (int i = 0; i < n; i++)
+        same = same && bit_equal(y0[i], y1[i]);
+    sym::expect("shared operator still applies (A - sigma I)^{-1} after a second solver was built on it", same, "op(w) changed");
+    sym::witness("end");
+}
+
 // operator left untouched: probe before / after compute(); complex-shift solver re-run
 static void complex_shift_case(int n)
 {
@@ -704,6 +738,16 @@ int main(int argc, char** argv)
         cases.push_back({"shared-operator/SymEigsSolver", [=]() { shared_op_case<SymEigsSolver<DenseSymMatProd<Real>>, decltype(mk), false>(mk, n, 2, 4, Args{SortRule::LargestAlge, 30, 1e-10}); }});
         auto mkg = [n]() { return std::make_shared<Held<DenseGenMatProd<Real>>>(instance("int", n, false)); };
         cases.push_back({"shared-operator/GenEigsSolver", [=]() { shared_op_case<GenEigsSolver<DenseGenMatProd<Real>>, decltype(mkg), true>(mkg, n, 2, 5, Args{SortRule::LargestMagn, 30, 1e-10}); }});
+    }
+    for (const char* k : {"int", "block", "laplace", "tie"})
+    {
+        std::string kind = k;
+        cases.push_back({"shared-operator/SymEigsShiftSolver/" + kind, [kind]() {
+                             shared_shift_op_case<SymEigsShiftSolver<DenseSymShiftSolve<Real>>, DenseSymShiftSolve<Real>, false>(instance(kind, 6, true), 6, 2, 4, 0.3, Args{SortRule::LargestMagn, 30, 1e-10});
+                         }});
+        cases.push_back({"shared-operator/GenEigsRealShiftSolver/" + kind, [kind]() {
+                             shared_shift_op_case<GenEigsRealShiftSolver<DenseGenRealShiftSolve<Real>>, DenseGenRealShiftSolve<Real>, true>(instance(kind, 6, false), 6, 2, 5, 0.3, Args{SortRule::LargestMagn, 30, 1e-10});
+                         }});
     }
     cases.push_back({"operator-untouched/complex-shift", []() { complex_shift_case(6); }});
     cases.push_back({"operator-untouched/real-shifts", []() { probes_case(6); }});
